@@ -9,3 +9,5 @@ func vhook(point string) {}
 // vpool marks the traffic of the render-context pools for the verification
 // harness; without the "verif" build tag it does nothing.
 func vpool(ev, pool string, obj interface{}, n int) {}
+
+func vflag(b bool) int { return 0 }
